@@ -1076,6 +1076,7 @@ package stack
 //@   modifies nothing
 //@ func splitTag
 //@   modifies nothing
+//@   ensures [tagsAreQueryEscaped C17] (result1 == "master" || (exists x string :: result1 == queryEsc(x))) && (result2 == "master" || (exists y string :: result2 == queryEsc(y)))
 //@ func escape
 //@   modifies nothing
 //@   ensures [escapeIsPathEscape C17] result == escapedPath(s)
@@ -1086,6 +1087,9 @@ package stack
 //@ func getSrcBranchURL
 //@   requires c != nil
 //@   modifies nothing
+//@   assert after-call fmt.Sprintf#1: [stdlibLinkPartsEscaped C17] len(arg1) == 3 && (exists x string :: strof(arg1[0]) == queryEsc(x)) && (exists y string :: strof(arg1[1]) == escapedPath(y))
+//@   assert after-call fmt.Sprintf#2: [githubLinkPartsEscaped C17] len(arg1) == 5 && (exists x string :: strof(arg1[0]) == escapedPath(x)) && (strof(arg1[2]) == "master" || (exists z string :: strof(arg1[2]) == queryEsc(z))) && (exists y string :: strof(arg1[3]) == escapedPath(y))
+//@   assert after-call fmt.Sprintf#3: [golangLinkPartsEscaped C17] len(arg1) == 4 && (strof(arg1[1]) == "master" || (exists z string :: strof(arg1[1]) == queryEsc(z))) && (exists y string :: strof(arg1[2]) == escapedPath(y))
 //@   ensures [srcURLHasFixedScheme C17] result0 == "" || (exists x string :: result0 == "file:///" + escapedPath(x)) || (len(result0) >= 19 && forall k :: 0 <= k && k < 19 ==> result0[k] == "https://github.com/"[k])
 //@ func srcURL
 //@   requires c != nil
